@@ -879,7 +879,7 @@ func ruleDownstreamErrorPath(r *Run) {
 			}
 		}
 	}
-	r.AtLeast(rule, "sources (service error lists returned by the queryer)", nSrc, 2)
+	r.AtLeast(rule, "sources (service error lists returned by the queryer)", nSrc, 1)
 	r.AtLeast(rule, "hand-overs of downstream errors", n, 2)
 }
 
@@ -1029,6 +1029,59 @@ func ruleNodeFieldSignature(r *Run) {
 			"every way the predicate can answer true has passed this test",
 			"isNodeField can answer true without having checked that the "+w+": a service field that merely resembles `node(id: ID!): Node` is taken for the relay lookup field — it gets no route (and is skipped by the overlap check), so it stays in the gateway's schema but cannot be answered")
 	}
+}
+
+// ruleNodeLookupScope (R13d.scope): the relay lookup `node(id: ID!): Node` is a field of Query.
+// Every place that sets a field aside because isNodeField recognises it (no route, not merged)
+// does so for the Query type only: the isNodeField test is conjoined with IsQueryObjectName.
+// A field of the same shape on an ordinary object type is a service's own field and needs its
+// route (second table audit: SetFromSchema skipped it for every type, the field stayed in the
+// gateway's schema without a route and was sent to a service that does not have it).
+func ruleNodeLookupScope(r *Run) {
+	const rule = "R13d.scope"
+	pred := r.Anchor(rule, "merger.isNodeField")
+	if pred == nil {
+		return
+	}
+	n := 0
+	for _, fn := range r.P.Funcs {
+		var nodeCalls, queryCalls []*ssa.Call
+		for _, ins := range allInstrs(fn) {
+			c, ok := ins.(*ssa.Call)
+			if !ok {
+				continue
+			}
+			if c.Call.StaticCallee() == pred {
+				nodeCalls = append(nodeCalls, c)
+			} else if strings.HasSuffix(calleeName(&c.Call), "common.IsQueryObjectName") {
+				queryCalls = append(queryCalls, c)
+			}
+		}
+		trueSide := func(c *ssa.Call) *ssa.BasicBlock {
+			for _, ref := range *c.Referrers() {
+				if iff, ok := ref.(*ssa.If); ok && len(iff.Block().Succs[0].Preds) == 1 {
+					return iff.Block().Succs[0]
+				}
+			}
+			return nil
+		}
+		for _, nc := range nodeCalls {
+			n++
+			good := false
+			for _, qc := range queryCalls {
+				if s := trueSide(qc); s != nil && (s == nc.Block() || s.Dominates(nc.Block())) {
+					good = true
+				}
+				if s := trueSide(nc); s != nil && (s == qc.Block() || s.Dominates(qc.Block())) {
+					good = true
+				}
+			}
+			r.Check(good, rule, fnName(fn), "node lookup set aside for Query only", r.P.pos(nc.Pos()),
+				"the isNodeField test is conjoined with IsQueryObjectName of the enclosing type",
+				"a field is set aside as the relay node lookup whatever type it belongs to: a field `node(id: ID!): Node` declared by a service on an ordinary object type stays in the gateway's schema but gets no route (or is dropped from the merge), so it is sent to a service that does not declare it")
+		}
+	}
+	r.AtLeast(rule, "uses of the node-lookup predicate", n, 3)
 }
 
 // nilTestSideEq: iff tests `v == nil` / `v != nil` on exactly v; returns the block entered when v is nil.
